@@ -87,6 +87,15 @@ class DslProp(PropBase):
                 c["a"] = GE.to_tree(Fraction(prod(num), prod(den)))
             except ZeroDivisionError:
                 c["a"] = GE.to_tree(Fraction(prod(num), gen.atom()))
+            if rng.random() < 0.15:
+                # the constant branches of Fraction.simplify: x / 1, 0 / x, 1 / (a / b), 1 / x (raw constructors: the operators never build these)
+                from y0.dsl import One, Zero
+                x = prod(num)
+                try:
+                    c["a"] = GE.to_tree(rng.choice([lambda: Fraction(x, One()), lambda: Fraction(Zero(), x), lambda: Fraction(One(), Fraction(x, gen.atom())),
+                                                    lambda: Fraction(One(), x), lambda: Fraction(One(), Fraction(One(), x))])())
+                except ZeroDivisionError:   # x is itself a Zero
+                    pass
         elif kind == "sum_simplify":
             from y0.dsl import Sum
             inner = gen.atom() if rng.random() < 0.8 else gen.expr(1)
